@@ -3,6 +3,7 @@
 package tally
 
 import (
+	"sync"
 	"unicode/utf8"
 
 	"github.com/uber-go/tally/v4/internal/verifrt"
@@ -117,4 +118,26 @@ func VerifC06NoOp() {
 	verifrt.Assert("c06.noop-key", z.Key(s) == s)
 	verifrt.Assert("c06.noop-value", z.Value(s) == s)
 	verifrt.Reach("c06.noop.end")
+}
+
+// VerifC06Concurrent: two goroutines sanitize at the same time through one sanitizer (the
+// scratch buffers are pooled): each gets exactly the sanitized form of its own string, on every
+// schedule with at most 2 preemptions and every hand-over the pool model allows.
+func VerifC06Concurrent() {
+	vc := ValidCharacters{Ranges: []SanitizeRange{{'a', 'z'}}}
+	fn := vc.sanitizeFn('_')
+	// warm the pool with a used buffer
+	fn("zz!")
+	var out [2]string
+	var wg sync.WaitGroup
+	verifrt.Explore(2)
+	wg.Add(2)
+	go func() { defer wg.Done(); out[0] = fn("q!68") }()
+	go func() { defer wg.Done(); out[1] = fn("d-159") }()
+	wg.Wait()
+	verifrt.StopExplore()
+	verifrt.Assert("c06.concurrent.first-result", out[0] == "q___")
+	verifrt.Assert("c06.concurrent.second-result", out[1] == "d____")
+	verifrt.Assert("c06.concurrent.deterministic-afterwards", fn("q!68") == "q___")
+	verifrt.Reach("c06.concurrent.end")
 }
